@@ -28,6 +28,17 @@ def run (args : List String) : String :=
     let hs := (e.slots.filterMap id ++ e.done).filter (fun h => h.uid != 0)
     let one := (e.done.filter (fun h => h.uid == 0)).map (fun h => s!"one-shot=[{" ".intercalate (h.received.map toString)}]")
     "valid " ++ " ".intercalate (one ++ hs.map (fun h => s!"h{h.uid - 1}=[{" ".intercalate (h.received.map toString)}]"))
+  | ["c10.crowd", hn, leave, n] =>
+    -- hn handlers, handler i selecting the actions ≡ i (mod hn), room for everything; the first `leave` removed (their
+    -- identifiers are their slots: 0, 1, …); messages 1..n with action id % hn, then a last one for the last handler
+    let hn := hn.toNat!; let leave := leave.toNat!; let n := n.toNat!
+    let e0 : EP := (List.range hn).foldl (fun e i => (make e ⟨hn, i, 0, n + 8, false⟩).1) {}
+    let e1 := (List.range (min leave hn)).foldl (fun e i => (remove e i).1) e0
+    let msgs := (List.range n).map (fun i => ({ action := (i + 1) % hn, id := i + 1, isCall := false } : Msg)) ++
+      [{ action := hn - 1, id := n + 1, isCall := false }]
+    let e := msgs.foldl (fun e m => (dispatch e m).1) e1
+    let hs := e.slots.filterMap id
+    "valid " ++ " ".intercalate (hs.map (fun h => s!"h{h.uid}=[{" ".intercalate (h.received.map toString)}]"))
   | _ => "bad-op"
 
 end QiVerif.Driver.C10
